@@ -23,6 +23,29 @@ STD_ASSUMPTIONS = [
 ]
 
 
+class MemBudget:
+    """Memory-aware admission: a harness starts only when its expected peak fits the remaining budget."""
+
+    def __init__(self, total):
+        import threading
+        self.total = total
+        self.free = total
+        self.cv = threading.Condition()
+
+    def acquire(self, n):
+        n = min(n, self.total)
+        with self.cv:
+            while self.free < n:
+                self.cv.wait()
+            self.free -= n
+
+    def release(self, n):
+        n = min(n, self.total)
+        with self.cv:
+            self.free += n
+            self.cv.notify_all()
+
+
 def load_known():
     """finding lines: finding: property=<id> harness=<name> check="<substring>" <what>"""
     out = []
@@ -83,9 +106,19 @@ def run_property(pid, tier, seed):
         logd = os.path.join(VERIF, "logs", pid)
         shutil.rmtree(logd, ignore_errors=True)
         os.makedirs(logd, exist_ok=True)
-        workers = int(os.environ.get("VERIF_JOBS", "5"))
+        workers = int(os.environ.get("VERIF_JOBS", "6"))
+        budget = MemBudget(int(os.environ.get("VERIF_TOTAL_MEM_GB", "54")))
+
+        def job(h):
+            need = h.get("mem_gb", 8)
+            budget.acquire(need)
+            try:
+                return kani_run.run_harness(scratch, h, logd, h["timeout"])
+            finally:
+                budget.release(need)
+
         with cf.ThreadPoolExecutor(max_workers=workers) as ex:
-            futs = {ex.submit(kani_run.run_harness, scratch, h, logd, h["timeout"]): h for h in hs}
+            futs = {ex.submit(job, h): h for h in hs}
             for fut in cf.as_completed(futs):
                 h = futs[fut]
                 try:
